@@ -15,8 +15,148 @@ def known(v, k):
     return False
 
 
+class _Race:
+    """one ready peer whose request was delivered and not answered; two application threads submit the answer at the same
+    time.  The node model takes a submission as one atomic step (EAppAnswer); this exploration runs the real
+    Node.route_answer / send_message under every interleaving of their source lines with <= `max_pre` pre-emptions and
+    demands what every sequential order gives: exactly one submission succeeds and the answer is transmitted once."""
+    def __init__(self, two_requests):
+        import nodesim as NS
+        from vsim import Sim
+        self.sim = sim = Sim(seed=1, t0=NS.T0)
+        sim.script_random([77, 12345])
+        N = sim.node_mod
+        self.node = node = N.Node("srv.example.net", "example.net", ip_addresses=["10.0.0.1"], tcp_port=3868)
+        self.reqs = []
+        self.app = app = sim.app_mod.SimpleThreadingApplication(4, is_auth_application=True,
+                                                                request_handler=lambda a, m: self.reqs.append(m))
+        peer = node.add_peer("aaa://cli0.example.net", "example.net")
+        node.add_application(app, [peer])
+        node.start()
+        sim.run()
+        sim.script_random([1000])
+        self.remote = r = sim.connect_in()
+        sim.run()
+        r.feed(NS.build_message(dict(kind="cer", host="cli0.example.net", hbh=1, e2e=1)))
+        sim.run()
+        for k in range(2 if two_requests else 1):
+            r.feed(NS.build_message(dict(kind="req", hbh=0x1001 + k, e2e=0x2001 + k, host="cli0.example.net")))
+        sim.run()
+        r.take_messages()
+
+    def launch(self, chooser, plan):
+        sim = self.sim
+        self.outcomes = {}
+        state = {"prev": None}
+
+        def ch(runnable):
+            pick = chooser(list(runnable), state["prev"])
+            state["prev"] = pick
+            return pick
+        sim.line_mode([sim.node_mod.Node.route_answer, sim.node_mod.Node.send_message], ch)
+        for t, which in enumerate(plan):
+            def submit(t=t, which=which):
+                ans = self.app.generate_answer(self.reqs[which], 2001)
+                try:
+                    self.app.send_answer(ans)
+                    self.outcomes[t] = "accepted"
+                except Exception as e:   # noqa
+                    self.outcomes[t] = type(e).__name__
+            sim.spawn(submit, name="S%d" % t)
+        sim.run()
+        sim.line_mode(None)
+        sim.advance(1)
+
+    def finish(self):
+        got = [m.header.hop_by_hop_identifier for m in self.remote.take_messages() if not m.header.is_request]
+        o = dict(outcomes=dict(self.outcomes), transmitted=got, deaths=list(self.sim.thread_deaths))
+        self.sim.shutdown()
+        return o
+
+
+def concurrent_submissions(run, max_pre, cap):
+    n_total = 0
+    for plan in ([0, 0], [0, 0, 0], [0, 1, 0]):
+        stack, n = [[]], 0
+        while stack and n < cap:
+            prefix = stack.pop()
+            rec = []
+            s = _Race(two_requests=1 in plan)
+
+            def chooser(runnable, prev, prefix=prefix, rec=rec):
+                i = len(rec)
+                pre = rec[-1][2] if rec else 0
+                c = prefix[i] if i < len(prefix) and prefix[i] in runnable else (prev if prev in runnable else runnable[0])
+                rec.append((runnable, c, pre + (1 if (prev in runnable and c != prev) else 0)))
+                return c
+            try:
+                s.launch(chooser, plan)
+                o = s.finish()
+            except Exception as e:   # noqa
+                try:
+                    s.sim.shutdown()
+                except Exception:   # noqa
+                    pass
+                o = dict(error=f"{type(e).__name__}: {e}", outcomes={}, transmitted=[], deaths=[])
+            n += 1
+            sched = [d[1] for d in rec]
+            run.count(1, [("race", tuple(plan), tuple(sched))] if len(set(sched)) > 1 else ())
+            case = {"scenario": "concurrent submissions of the answer to one request", "submitters": [hex(0x1001 + w) for w in plan],
+                    "schedule": sched}
+            if "error" in o:
+                run.violation("no-spin", case, o["error"], what="harness: " + o["error"])
+                break
+            want = {0x1001 + w for w in plan}
+            acc = [t for t, v in o["outcomes"].items() if v == "accepted"]
+            per_req = {h: sum(1 for t in acc if 0x1001 + plan[t] == h) for h in want}
+            sent = {h: o["transmitted"].count(h) for h in want}
+            if any(v != 1 for v in per_req.values()) or any(v != 1 for v in sent.values()) or o["deaths"]:
+                run.violation("second-fails", case, {"outcomes": {str(k): v for k, v in o["outcomes"].items()},
+                                                     "transmitted": [hex(h) for h in o["transmitted"]], "deaths": o["deaths"]},
+                              "per request: one submission accepted, the others fail; the answer is transmitted once",
+                              what="two concurrent submissions of one answer: both were accepted / the answer was transmitted "
+                                   "more than once (or not at all)")
+                break
+            for i in range(len(prefix), len(rec)):
+                runnable, chosen, _p = rec[i]
+                prev = rec[i - 1][1] if i else None
+                before = rec[i - 1][2] if i else 0
+                for alt in runnable:
+                    if alt != chosen and before + (1 if (prev in runnable and alt != prev) else 0) <= max_pre:
+                        stack.append(sched[:i] + [alt])
+        n_total += n
+    run.extra["concurrent_submission_schedules"] = n_total
+
+
 def check(run):
+    orig_obligations = run.obligations
+
+    def obligations_then_race(files):
+        out = orig_obligations(files)
+        if run.tier == "thorough":
+            concurrent_submissions(run, 2, 1500)
+        else:
+            concurrent_submissions(run, 1, 150)
+        return out
+    run.obligations = obligations_then_race
     return nodecheck.run(run, "C09", FILES, PROFILE, W, N_QUICK, N_THOROUGH, LENGTH, themes=THEMES, known=known)
 
 
-replay = nodecheck.replay_generic
+def replay(r):
+    c = r.get("case", {})
+    if str(c.get("scenario", "")).startswith("concurrent submissions"):
+        plan = [int(x, 16) - 0x1001 for x in c["submitters"]]
+        s = _Race(two_requests=1 in plan)
+        pre = list(c["schedule"])
+        k = [0]
+
+        def chooser(runnable, prev):
+            i = k[0]
+            k[0] += 1
+            return pre[i] if i < len(pre) and pre[i] in runnable else (prev if prev in runnable else runnable[0])
+        s.launch(chooser, plan)
+        o = s.finish()
+        print("replay: outcomes", o["outcomes"], "transmitted", [hex(h) for h in o["transmitted"]])
+        acc = [t for t, v in o["outcomes"].items() if v == "accepted"]
+        return all(sum(1 for t in acc if plan[t] == w) == 1 and o["transmitted"].count(0x1001 + w) == 1 for w in set(plan))
+    return nodecheck.replay_generic(r)
